@@ -12,8 +12,12 @@ import json, os, re, subprocess, sys, time, hashlib, shutil, glob
 VERIF = os.path.dirname(os.path.dirname(os.path.abspath(__file__)))
 REPO = os.environ.get('VERIF_REPO', '/repo')
 LEAN = os.path.join(VERIF, 'lean')
-WORK = os.path.join(VERIF, '.work')
+# An alternative repository (a scratch worktree with a seeded change, say) can be checked with
+# VERIF_REPO=<dir>; everything such a run writes (evidence, replays, binaries) stays under .work/alt-*/.
+ALT = os.path.realpath(REPO) != '/repo'
+WORK = os.path.join(VERIF, '.work') if not ALT else os.path.join(VERIF, '.work', 'alt-' + hashlib.sha1(os.path.realpath(REPO).encode()).hexdigest()[:8])
 BIN = os.path.join(WORK, 'bin')
+OUTDIR = VERIF if not ALT else WORK
 
 GOENV = dict(os.environ, GOFLAGS='-mod=mod', GOPROXY='off', GOSUMDB='off', GOTOOLCHAIN='local',
              CGO_ENABLED=os.environ.get('CGO_ENABLED', '0'))
@@ -192,8 +196,8 @@ def load_cfg(pid):
 
 
 def write_evidence(pid, ev):
-    os.makedirs(os.path.join(VERIF, 'evidence'), exist_ok=True)
-    path = os.path.join(VERIF, 'evidence', pid + '.json')
+    os.makedirs(os.path.join(OUTDIR, 'evidence'), exist_ok=True)
+    path = os.path.join(OUTDIR, 'evidence', pid + '.json')
     tmp = path + '.tmp'
     json.dump(ev, open(tmp, 'w'), indent=1, sort_keys=True, default=str)
     os.replace(tmp, path)
@@ -337,8 +341,8 @@ def main(argv):
     violation = bool(new_fail) or bool(broken)
     replay_path = ''
     if violation:
-        os.makedirs(os.path.join(VERIF, 'replays'), exist_ok=True)
-        replay_path = os.path.join(VERIF, 'replays', '%s-%s-%d.json' % (pid, a.tier, a.seed))
+        os.makedirs(os.path.join(OUTDIR, 'replays'), exist_ok=True)
+        replay_path = os.path.join(OUTDIR, 'replays', '%s-%s-%d.json' % (pid, a.tier, a.seed))
         json.dump({'property': pid, 'seed': a.seed, 'tier': a.tier,
                    'no_longer_checks': broken, 'failures': new_fail,
                    'replay_cmd': 'bin/check %s --replay %s' % (pid, replay_path)},
